@@ -37,6 +37,13 @@ so that the theorems of `Props/C11.lean` are theorems about the translated sourc
 * method calls on objects are resolved by the parameter `cm` — each theorem says what it assumes about the calls the
   translated function makes (usually: "the call returns what the translated callee returns", the chain theorems
   instantiate `cm` with the translated callees themselves: `cmSR`);
+* `_SO_columnClause` (`Lemmas/QueryXKw.lean`): keyword values are `None`, ints or `SQLObject` instances with an `id`
+  (`kwValV`); `NoClash`: `id`, the column names and the foreign names of the class are distinct Python names; an
+  instance used as a query value renders as its id (`P.sqlrepr (instance id) = P.sqlrepr id`, /repo's fix 56fe495);
+  `None in <dict>` is `False`; a dict PARAMETER popped by the callee is not seen changed by the caller;
+* the chain theorems (`Lemmas/QueryXChain.lean`) need no assumption on `_mungeOrderBy`, `_getConnection`, `__class__`,
+  `clone`, `accumulateOne`, `accumulateMany` any more (they are the translated functions: `cm1`, `cm2`, `cm3`, `cmMany`,
+  `cmOne`); what remains a parameter there: `accumulate` of the final step, `sqlrepr`, `P.conn.dbName`;
 * the database is the pair of parameters `queryOne : text ↦ row`, `rowsOf : SelectResults ↦ fetched rows`; the model's
   reference evaluator instantiates them in `Props/C11.lean`.
 -/
